@@ -40,6 +40,28 @@ fn main() {
         }
         "replay" => replay_main(&|id| find_prop(id), &args[2]),
         "c20run" => props::repro::c20run_main(&args[2..]),
+        "genmulti" => {
+            // debug helper: size (and optionally the content) of the generated multi-pattern pools
+            println!("single level 2: {} patterns", props::matches::generated_single_pool(2).len());
+            let g = props::matches::generated_single_pool(1);
+            println!("single: {} patterns", g.len());
+            if args.len() > 2 {
+                let n: usize = args[2].parse().unwrap_or(20);
+                for p in g.iter().step_by((g.len() / n).max(1)) {
+                    println!("   {p}");
+                }
+            }
+            for lvl in [1u8, 2] {
+                let g = props::matches::generated_pool(lvl);
+                println!("level {lvl}: {} multi-patterns", g.len());
+                if args.len() > 2 {
+                    for p in g.iter().take(args[2].parse().unwrap_or(20)) {
+                        println!("   {p}");
+                    }
+                }
+            }
+            0
+        }
         "hist" => {
             // debug helper: mc hist "union (f $0 $1) = (f $1 $0) ; add (u (f $0 $1))"
             use slotted_egraphs::*;
